@@ -347,7 +347,7 @@ func runC13(r *Run, stratum string) *Violation {
 			s := s
 			for _, ss := range s.srv.Ready() {
 				ss := ss
-				acts = append(acts, act{fmt.Sprintf("exec %s c%d", s.name, ss.Conn.ID), 8, func() { s.srv.Step(ss) }})
+				acts = append(acts, act{fmt.Sprintf("exec %s %s", s.name, ss.LabelString()), 8, func() { s.srv.Step(ss) }})
 			}
 			if allowClients && len(c.ops) < maxOps {
 				acts = append(acts, act{"client " + s.name, 4, func() { c.clientOp(s) }})
